@@ -445,7 +445,7 @@ def run_shard(ctx):
     import tempfile
 
     conf = TIERS[ctx.tier]
-    for v, params, kind, delivery, origin in T.iter_cases(ctx, conf, with_reuse=False):
+    for v, params, kind, delivery, origin in T.iter_cases(ctx, conf, with_reuse=False, with_faults=False):
         check_latency(ctx, v, params, kind, origin)
     # long streams: latency must not grow with length
     rng = ctx.rng("long")
